@@ -16,9 +16,9 @@ fn eq32(a: &[u8; 32], b: &[u8; 32]) -> bool {
     same
 }
 
-fn atom() -> AttachmentValue {
+/// Atom attachment with a symbolic type id and `n` (concrete) symbolic payload bytes.
+fn atom(n: usize) -> AttachmentValue {
     let b: [u8; 2] = kani::any();
-    let n: usize = if kani::any() { 1 } else { 2 };
     AttachmentValue::Atom(AtomPayload::new(TypeId(id32()), bytes::Bytes::copy_from_slice(&b[..n])))
 }
 
@@ -39,7 +39,8 @@ fn op_of(kind: u8) -> WarpOp {
         8 => WarpOp::UpsertEdge { warp_id: warp, record: EdgeRecord { id: EdgeId(id32()), from: NodeId(id32()), to: NodeId(id32()), ty: TypeId(id32()) } },
         9 => WarpOp::SetAttachment { key: AttachmentKey::node_alpha(node), value: None },
         10 => WarpOp::SetAttachment { key: AttachmentKey::edge_beta(edge), value: Some(AttachmentValue::Descend(WarpId(id32()))) },
-        _ => WarpOp::SetAttachment { key: AttachmentKey::node_alpha(node), value: Some(atom()) },
+        11 => WarpOp::SetAttachment { key: AttachmentKey::node_alpha(node), value: Some(atom(2)) },
+        _ => WarpOp::SetAttachment { key: AttachmentKey::node_alpha(node), value: Some(atom(1)) },
     }
 }
 
@@ -53,40 +54,119 @@ fn slot_of(kind: u8) -> SlotId {
     }
 }
 
-fn patch(op_kind: u8, slot_kind: u8) -> WarpTickPatchV1 {
-    let status = if kani::any() { TickCommitStatus::Committed } else { TickCommitStatus::Aborted };
-    WarpTickPatchV1::new(kani::any(), id32(), status, vec![slot_of(slot_kind)], vec![slot_of(3 - slot_kind)], vec![op_of(op_kind)])
+struct Fields {
+    policy: u32,
+    rule_pack: [u8; 32],
+    status: TickCommitStatus,
+    in_slot: SlotId,
+    out_slot: SlotId,
+    op: WarpOp,
 }
 
-/// Two patches of the same shape, all field contents symbolic: equal digests => equal patches.
+fn fields(op_kind: u8, slot_kind: u8) -> Fields {
+    Fields {
+        policy: kani::any(),
+        rule_pack: id32(),
+        status: if kani::any() { TickCommitStatus::Committed } else { TickCommitStatus::Aborted },
+        in_slot: slot_of(slot_kind),
+        out_slot: slot_of(3 - slot_kind),
+        op: op_of(op_kind),
+    }
+}
+
+fn digest(f: &Fields) -> [u8; 32] {
+    warp_core::verif_hooks::patch_digest(f.policy, &f.rule_pack, f.status, core::slice::from_ref(&f.in_slot),
+        core::slice::from_ref(&f.out_slot), core::slice::from_ref(&f.op))
+}
+
+/// Two patches of the same shape, all field contents symbolic: equal digests <=> equal contents.
+/// The digest kernel is called on canonical one-element lists (what `WarpTickPatchV1::new` hands
+/// it after sorting/deduping; the canonicalisation itself is C01's op-key obligation).
 #[inline(always)]
 fn same_shape_injective(lo: u8, hi: u8) {
     let mut k = lo;
     while k <= hi {
         #[cfg(kani)]
         crate::hashmodel::reset();
-        let (p1, p2) = (patch(k, k & 3), patch(k, k & 3));
-        let same_digest = eq32(&p1.digest(), &p2.digest());
-        let same_patch = p1.policy_id() == p2.policy_id() && eq32(&p1.rule_pack_id(), &p2.rule_pack_id())
-            && p1.commit_status() == p2.commit_status() && p1.in_slots()[0] == p2.in_slots()[0]
-            && p1.out_slots()[0] == p2.out_slots()[0] && p1.ops()[0] == p2.ops()[0];
+        let (p1, p2) = (fields(k, k & 3), fields(k, k & 3));
+        let same_digest = eq32(&digest(&p1), &digest(&p2));
+        let same_patch = p1.policy == p2.policy && eq32(&p1.rule_pack, &p2.rule_pack) && p1.status == p2.status
+            && p1.in_slot == p2.in_slot && p1.out_slot == p2.out_slot && p1.op == p2.op;
         assert!(same_digest == same_patch, "patch digest does not bind exactly the patch contents");
         core::mem::forget((p1, p2));
         k += 1;
     }
 }
 
-//@ tier=quick timeout=2400 mem=14 bits=4000 unwind=5 unwindset="hashmodel=520;eq32=33;memcmp=34" fns=warp_core::tick_patch::WarpTickPatchV1::new,compute_patch_digest_v2,encode_slots,encode_ops,encode_portal_init,encode_attachment_key
-//@ bounds="one-op patches with one read slot and one written slot; op shapes: OpenPortal (both inits, node/edge owner), UpsertWarpInstance (with/without parent); every id, the policy id, rule pack and status symbolic in both patches"
-//@ desc="patch digest (instance-level ops): equal digests <=> equal policy, rule pack, status, slots and op"
-proof_h! { fn c05_patch_digest_instance_ops() { same_shape_injective(0, 3); reach!(); } }
+//@ tier=quick timeout=2400 mem=14 bits=1500 unwind=5 unwindset="hashmodel=520;eq32=33;memcmp=34" fns=warp_core::tick_patch::compute_patch_digest_v2,encode_slots,encode_ops,encode_portal_init,encode_attachment_key,encode_attachment_value,encode_atom_payload
+//@ bounds="two one-op patches of the same shape (digest kernel on canonical one-element lists) - op: OpenPortal (node owner, Empty init with root record type); one read slot and one written slot; every id, the policy id, the rule pack and the commit status symbolic in both patches"
+//@ desc="patch digest: equal digests <=> equal policy, rule pack, status, slots and op (OpenPortal (node owner, Empty init with root record type))"
+proof_h! { fn c05_patch_digest_open_portal_empty() { same_shape_injective(0, 0); reach!(); } }
 
-//@ tier=quick timeout=2400 mem=14 bits=4000 unwind=5 unwindset="hashmodel=520;eq32=33;memcmp=34" fns=warp_core::tick_patch::WarpTickPatchV1::new,compute_patch_digest_v2,encode_slots,encode_ops
-//@ bounds="one-op patches; op shapes: DeleteWarpInstance, DeleteEdge, DeleteNode, UpsertNode; all fields symbolic"
-//@ desc="patch digest (skeleton ops I): equal digests <=> equal patch contents"
-proof_h! { fn c05_patch_digest_skeleton_ops_a() { same_shape_injective(4, 7); reach!(); } }
+//@ tier=quick timeout=2400 mem=14 bits=1500 unwind=5 unwindset="hashmodel=520;eq32=33;memcmp=34" fns=warp_core::tick_patch::compute_patch_digest_v2,encode_slots,encode_ops,encode_portal_init,encode_attachment_key,encode_attachment_value,encode_atom_payload
+//@ bounds="two one-op patches of the same shape (digest kernel on canonical one-element lists) - op: OpenPortal (edge owner, RequireExisting); one read slot and one written slot; every id, the policy id, the rule pack and the commit status symbolic in both patches"
+//@ desc="patch digest: equal digests <=> equal policy, rule pack, status, slots and op (OpenPortal (edge owner, RequireExisting))"
+proof_h! { fn c05_patch_digest_open_portal_existing() { same_shape_injective(1, 1); reach!(); } }
 
-//@ tier=quick timeout=2400 mem=14 bits=4000 unwind=5 unwindset="hashmodel=520;eq32=33;memcmp=34" fns=warp_core::tick_patch::WarpTickPatchV1::new,compute_patch_digest_v2,encode_ops,encode_attachment_value,encode_atom_payload
-//@ bounds="one-op patches; op shapes: UpsertEdge, SetAttachment(None / Descend / Atom with 1..2 symbolic bytes); all fields symbolic"
-//@ desc="patch digest (edge and attachment ops): equal digests <=> equal patch contents, including attachment type id, length and bytes"
-proof_h! { fn c05_patch_digest_edge_attachment_ops() { same_shape_injective(8, 11); reach!(); } }
+//@ tier=quick timeout=2400 mem=14 bits=1500 unwind=5 unwindset="hashmodel=520;eq32=33;memcmp=34" fns=warp_core::tick_patch::compute_patch_digest_v2,encode_slots,encode_ops,encode_portal_init,encode_attachment_key,encode_attachment_value,encode_atom_payload
+//@ bounds="two one-op patches of the same shape (digest kernel on canonical one-element lists) - op: UpsertWarpInstance with a parent slot; one read slot and one written slot; every id, the policy id, the rule pack and the commit status symbolic in both patches"
+//@ desc="patch digest: equal digests <=> equal policy, rule pack, status, slots and op (UpsertWarpInstance with a parent slot)"
+proof_h! { fn c05_patch_digest_upsert_instance_parent() { same_shape_injective(2, 2); reach!(); } }
+
+//@ tier=quick timeout=2400 mem=14 bits=1500 unwind=5 unwindset="hashmodel=520;eq32=33;memcmp=34" fns=warp_core::tick_patch::compute_patch_digest_v2,encode_slots,encode_ops,encode_portal_init,encode_attachment_key,encode_attachment_value,encode_atom_payload
+//@ bounds="two one-op patches of the same shape (digest kernel on canonical one-element lists) - op: UpsertWarpInstance without parent; one read slot and one written slot; every id, the policy id, the rule pack and the commit status symbolic in both patches"
+//@ desc="patch digest: equal digests <=> equal policy, rule pack, status, slots and op (UpsertWarpInstance without parent)"
+proof_h! { fn c05_patch_digest_upsert_instance_root() { same_shape_injective(3, 3); reach!(); } }
+
+//@ tier=quick timeout=2400 mem=14 bits=1500 unwind=5 unwindset="hashmodel=520;eq32=33;memcmp=34" fns=warp_core::tick_patch::compute_patch_digest_v2,encode_slots,encode_ops,encode_portal_init,encode_attachment_key,encode_attachment_value,encode_atom_payload
+//@ bounds="two one-op patches of the same shape (digest kernel on canonical one-element lists) - op: DeleteWarpInstance; one read slot and one written slot; every id, the policy id, the rule pack and the commit status symbolic in both patches"
+//@ desc="patch digest: equal digests <=> equal policy, rule pack, status, slots and op (DeleteWarpInstance)"
+proof_h! { fn c05_patch_digest_delete_instance() { same_shape_injective(4, 4); reach!(); } }
+
+//@ tier=quick timeout=2400 mem=14 bits=1500 unwind=5 unwindset="hashmodel=520;eq32=33;memcmp=34" fns=warp_core::tick_patch::compute_patch_digest_v2,encode_slots,encode_ops,encode_portal_init,encode_attachment_key,encode_attachment_value,encode_atom_payload
+//@ bounds="two one-op patches of the same shape (digest kernel on canonical one-element lists) - op: DeleteEdge; one read slot and one written slot; every id, the policy id, the rule pack and the commit status symbolic in both patches"
+//@ desc="patch digest: equal digests <=> equal policy, rule pack, status, slots and op (DeleteEdge)"
+proof_h! { fn c05_patch_digest_delete_edge() { same_shape_injective(5, 5); reach!(); } }
+
+//@ tier=quick timeout=2400 mem=14 bits=1500 unwind=5 unwindset="hashmodel=520;eq32=33;memcmp=34" fns=warp_core::tick_patch::compute_patch_digest_v2,encode_slots,encode_ops,encode_portal_init,encode_attachment_key,encode_attachment_value,encode_atom_payload
+//@ bounds="two one-op patches of the same shape (digest kernel on canonical one-element lists) - op: DeleteNode; one read slot and one written slot; every id, the policy id, the rule pack and the commit status symbolic in both patches"
+//@ desc="patch digest: equal digests <=> equal policy, rule pack, status, slots and op (DeleteNode)"
+proof_h! { fn c05_patch_digest_delete_node() { same_shape_injective(6, 6); reach!(); } }
+
+//@ tier=quick timeout=2400 mem=14 bits=1500 unwind=5 unwindset="hashmodel=520;eq32=33;memcmp=34" fns=warp_core::tick_patch::compute_patch_digest_v2,encode_slots,encode_ops,encode_portal_init,encode_attachment_key,encode_attachment_value,encode_atom_payload
+//@ bounds="two one-op patches of the same shape (digest kernel on canonical one-element lists) - op: UpsertNode; one read slot and one written slot; every id, the policy id, the rule pack and the commit status symbolic in both patches"
+//@ desc="patch digest: equal digests <=> equal policy, rule pack, status, slots and op (UpsertNode)"
+proof_h! { fn c05_patch_digest_upsert_node() { same_shape_injective(7, 7); reach!(); } }
+
+//@ tier=quick timeout=2400 mem=14 bits=1500 unwind=5 unwindset="hashmodel=520;eq32=33;memcmp=34" fns=warp_core::tick_patch::compute_patch_digest_v2,encode_slots,encode_ops,encode_portal_init,encode_attachment_key,encode_attachment_value,encode_atom_payload
+//@ bounds="two one-op patches of the same shape (digest kernel on canonical one-element lists) - op: UpsertEdge; one read slot and one written slot; every id, the policy id, the rule pack and the commit status symbolic in both patches"
+//@ desc="patch digest: equal digests <=> equal policy, rule pack, status, slots and op (UpsertEdge)"
+proof_h! { fn c05_patch_digest_upsert_edge() { same_shape_injective(8, 8); reach!(); } }
+
+//@ tier=quick timeout=2400 mem=14 bits=1500 unwind=5 unwindset="hashmodel=520;eq32=33;memcmp=34" fns=warp_core::tick_patch::compute_patch_digest_v2,encode_slots,encode_ops,encode_portal_init,encode_attachment_key,encode_attachment_value,encode_atom_payload
+//@ bounds="two one-op patches of the same shape (digest kernel on canonical one-element lists) - op: SetAttachment(node slot, None); one read slot and one written slot; every id, the policy id, the rule pack and the commit status symbolic in both patches"
+//@ desc="patch digest: equal digests <=> equal policy, rule pack, status, slots and op (SetAttachment(node slot, None))"
+proof_h! { fn c05_patch_digest_set_attachment_none() { same_shape_injective(9, 9); reach!(); } }
+
+//@ tier=quick timeout=2400 mem=14 bits=1500 unwind=5 unwindset="hashmodel=520;eq32=33;memcmp=34" fns=warp_core::tick_patch::compute_patch_digest_v2,encode_slots,encode_ops,encode_portal_init,encode_attachment_key,encode_attachment_value,encode_atom_payload
+//@ bounds="two one-op patches of the same shape (digest kernel on canonical one-element lists) - op: SetAttachment(edge slot, Descend); one read slot and one written slot; every id, the policy id, the rule pack and the commit status symbolic in both patches"
+//@ desc="patch digest: equal digests <=> equal policy, rule pack, status, slots and op (SetAttachment(edge slot, Descend))"
+proof_h! { fn c05_patch_digest_set_attachment_descend() { same_shape_injective(10, 10); reach!(); } }
+
+//@ tier=quick timeout=2400 mem=14 bits=1500 unwind=5 unwindset="hashmodel=520;eq32=33;memcmp=34" fns=warp_core::tick_patch::compute_patch_digest_v2,encode_slots,encode_ops,encode_portal_init,encode_attachment_key,encode_attachment_value,encode_atom_payload
+//@ bounds="two one-op patches of the same shape (digest kernel on canonical one-element lists) - op: SetAttachment(node slot, Atom with 2 symbolic bytes and symbolic type id); one read slot and one written slot; every id, the policy id, the rule pack and the commit status symbolic in both patches"
+//@ desc="patch digest: equal digests <=> equal policy, rule pack, status, slots and op (SetAttachment(node slot, Atom with 2 symbolic bytes and symbolic type id))"
+proof_h! { fn c05_patch_digest_set_attachment_atom() { same_shape_injective(11, 11); reach!(); } }
+
+
+//@ tier=quick timeout=2400 mem=14 bits=1500 unwind=5 unwindset="hashmodel=520;eq32=33;memcmp=34" fns=warp_core::tick_patch::compute_patch_digest_v2,encode_attachment_value,encode_atom_payload
+//@ bounds="two one-op patches SetAttachment(Atom): payload of 1 symbolic byte vs payload of 2 symbolic bytes, every other field symbolic in both"
+//@ desc="patch digest: atom payloads of different length never collide (the length prefix is bound), whatever the bytes and the other fields are"
+proof_h! {
+    fn c05_patch_digest_atom_length_bound() {
+        let (p1, p2) = (fields(11, 3), fields(12, 3));
+        assert!(!eq32(&digest(&p1), &digest(&p2)), "patch digests of atoms with different payload length collide");
+        core::mem::forget((p1, p2));
+        reach!();
+    }
+}
